@@ -24,6 +24,7 @@ type C10Case struct {
 	CLI       bool     `json:"cli,omitempty"`      // run through the command line (in place) instead of the library API
 	Seq       string   `json:"seq,omitempty"`      // two-change cases: what the earlier change does to the guarded clause
 	Name0     string   `json:"name0"`              // literal name used for path 0 on the patch side (different from / equal to the path's base name)
+	FileName  string   `json:"file_name,omitempty"` // name of the target file ("" = a.go)
 	Patch     string   `json:"patch"`
 	File      string   `json:"file"`
 	Expect    bool     `json:"expect_applies"`
@@ -206,6 +207,40 @@ func c10SeqCases(emit func(any)) {
 		{"noop-before/holds", noop, " import \"fmt\"", file("a", `"fmt"`), true},
 		{"noop-before/fails", noop, " package b", file("a", `"fmt"`), false},
 	}
+	// single changes: the file's name does not enter the package guard; the order in which the patch lists its
+	// imports need not be the file's
+	type one struct {
+		id, guard, file, name string
+		expect                bool
+	}
+	ones := []one{
+		{"file-name/external-test-package-vs-base-guard", " package a", file("a_test", `"fmt"`), "a_test.go", false},
+		{"file-name/external-test-package-vs-its-guard", " package a_test", file("a_test", `"fmt"`), "a_test.go", true},
+		{"file-name/internal-test-file", " package a", file("a", `"fmt"`), "a_test.go", true},
+		{"file-name/test-package-in-ordinary-file", " package a_test", file("a_test", `"fmt"`), "extern.go", true},
+		{"file-name/main-go", " package a", file("a", `"fmt"`), "main.go", true},
+	}
+	paths := []string{`"fmt"`, `"os"`, `"strings"`}
+	for _, perm := range [][]int{{0, 1, 2}, {0, 2, 1}, {1, 0, 2}, {1, 2, 0}, {2, 0, 1}, {2, 1, 0}} {
+		var single, grouped string
+		for _, i := range perm {
+			single += " import " + paths[i] + "\n"
+			grouped += "   " + paths[i] + "\n"
+		}
+		id := fmt.Sprintf("import-order/%v", perm)
+		ones = append(ones, one{id + "/single", strings.TrimSuffix(single, "\n"), file("a", paths...), "", true})
+		ones = append(ones, one{id + "/grouped", " import (\n" + grouped + " )", file("a", paths...), "", true})
+		ones = append(ones, one{id + "/one-missing", strings.TrimSuffix(single, "\n"), file("a", paths[0], paths[2]), "", false})
+	}
+	for _, c := range ones {
+		for _, cli := range []bool{false, true} {
+			id := c.id
+			if cli {
+				id += "/cli"
+			}
+			emit(&C10Case{Seq: id, CLI: cli, PatchImps: []string{"absent", "absent"}, FileImps: []string{"absent", "absent"}, Patch: main(c.guard), File: c.file, FileName: c.name, Expect: c.expect})
+		}
+	}
 	for _, c := range cases {
 		for _, packaging := range []string{"one-file"} {
 			_ = packaging
@@ -336,11 +371,15 @@ func c10Run(env *core.Env, ci any) core.Outcome {
 	if err != nil {
 		return core.Outcome{Skip: "patch rejected: " + firstWords(err.Error(), 6)}
 	}
-	res, err := pf.Apply("a.go", []byte(c.File))
+	fname := "a.go"
+	if c.FileName != "" {
+		fname = c.FileName
+	}
+	res, err := pf.Apply(fname, []byte(c.File))
 	if c.CLI {
-		sb := newSandbox(env, "c10", map[string]string{"t/a.go": c.File, "g.patch": c.Patch})
-		r := sb.run(false, "t", []string{"-p", sb.path("g.patch"), "a.go"}, "")
-		res, err = []byte(sb.read("t/a.go")), nil
+		sb := newSandbox(env, "c10", map[string]string{"t/" + fname: c.File, "g.patch": c.Patch})
+		r := sb.run(false, "t", []string{"-p", sb.path("g.patch"), fname}, "")
+		res, err = []byte(sb.read("t/" + fname)), nil
 		if r.Exit != 0 || r.Panic != "" {
 			err = fmt.Errorf("exit %d: %s %s", r.Exit, r.Stderr, r.Panic)
 		}
